@@ -1,0 +1,17 @@
+//go:build verif
+
+package kernel
+
+import "github.com/MixinNetwork/mixin/common"
+
+// Verification hooks for property C19 (add-only, compiled only with -tags verif).
+
+// VerifValidateSnapshot exposes CacheRound.validateSnapshot with the add flag.
+func (c *CacheRound) VerifValidateSnapshot(s *common.Snapshot, add bool) error {
+	return c.validateSnapshot(s, add)
+}
+
+// VerifAsFinal exposes CacheRound.asFinal.
+func (c *CacheRound) VerifAsFinal() *FinalRound {
+	return c.asFinal()
+}
